@@ -75,6 +75,7 @@ def main(tier, seed):
         srcs = [None] * len(cases)
         for k in range(n):
             p = rand_prog(rng, grammar=(k % 3 != 0)); i = rand_stdin(rng); cap = 400 if k % 10 else 2000
+            if k % 40 == 7: p = idiom_jump_from_zero(rng) + p[:3]       # command 0 as a jump source / return point
             cases.append("one %s %s %d" % (enc_prog(p), enc_text(i), cap)); srcs.append((p, i, cap))
         feats = {"jumps_taken": 0, "input_read": 0, "ends": {}, "steps_total": 0, "max_steps": 0, "with_output": 0, "with_err": 0, "labels": 0, "return_heart_pending": 0}
         nshrunk = 0
